@@ -107,19 +107,31 @@ func (db *SingleBucketBackend) ListBucket(bucket string, prefix *gofakes3.Prefix
 
 	path, part, ok := prefix.FilePrefix()
 	if ok {
-		return db.getBucketWithFilePrefixLocked(bucket, path, part)
+		return db.getBucketWithFilePrefixLocked(bucket, prefix.Prefix, path, part)
 	} else {
 		return db.getBucketWithArbitraryPrefixLocked(bucket, prefix)
 	}
 }
 
-func (db *SingleBucketBackend) getBucketWithFilePrefixLocked(bucket string, prefixPath, prefixPart string) (*gofakes3.ObjectList, error) {
+func (db *SingleBucketBackend) getBucketWithFilePrefixLocked(bucket string, prefix string, prefixPath, prefixPart string) (*gofakes3.ObjectList, error) {
+	response := gofakes3.NewObjectList()
+
+	// If the directory part of the prefix does not exist, or is an object
+	// rather than a directory, no key can start with the prefix:
+	if prefixPath != "" {
+		if stat, err := db.fs.Stat(filepath.FromSlash(prefixPath)); os.IsNotExist(err) {
+			return response, nil
+		} else if err != nil {
+			return nil, err
+		} else if !stat.IsDir() {
+			return response, nil
+		}
+	}
+
 	dirEntries, err := afero.ReadDir(db.fs, filepath.FromSlash(prefixPath))
 	if err != nil {
 		return nil, err
 	}
-
-	response := gofakes3.NewObjectList()
 
 	for _, entry := range dirEntries {
 		object := entry.Name()
@@ -128,6 +140,12 @@ func (db *SingleBucketBackend) getBucketWithFilePrefixLocked(bucket string, pref
 		objectPath := path.Join(prefixPath, object)
 
 		if prefixPart != "" && !strings.HasPrefix(object, prefixPart) {
+			continue
+		}
+
+		// path.Join cleans the path, so a prefix like "a//" or "./a" ends up
+		// reading a directory whose keys do not literally start with it:
+		if !strings.HasPrefix(objectPath, prefix) {
 			continue
 		}
 
